@@ -241,7 +241,114 @@ def standin_resolve_after_edits(tier, seed):
                 cases=cases, distinct=cases, failures=len(fails), exhaustive=False, _fails=fails[:2])
 standin_resolve_after_edits.prop = "C10"
 
-STANDINS = [standin_sweeps, standin_resolution, standin_resolve_after_edits]
+def standin_flatten(tier, seed):
+    """flattening preserves every gate's value for every assignment: flatten / flatten_with_sweep / flatten_with_params, re-flattening
+    an already flat circuit extended by new expression gates, bare symbols whose names look like generated names, user-seeded maps"""
+    import cirq
+    import sympy
+    from cirq.study import flatten_expressions as fe
+
+    rng = random.Random(seed)
+    cases, fails = 0, []
+    x, y, z = sympy.symbols("x y z")
+    exprs = [x, y, x + 1, 2 * y, x * y, x ** 2, -z, x / 2 + y, x + y + z, sympy.pi * x / 4, (x + 1) * (y - 1), 1 - x]
+    q = cirq.LineQubit.range(2)
+
+    def odd_names(es):
+        # bare symbols named like what the default naming would generate for the expressions in play (and suffixed variants)
+        out = []
+        for e in es:
+            n = e.name if isinstance(e, sympy.Symbol) else f"<{e!s}>"
+            out += [sympy.Symbol(n), sympy.Symbol(n + "_1")]
+        return out
+
+    def gate_ops(es):
+        pool = [lambda e: cirq.X(q[0]) ** e, lambda e: cirq.Z(q[1]) ** e, lambda e: cirq.CZ(q[0], q[1]) ** e, lambda e: cirq.rx(e).on(q[1]),
+                lambda e: cirq.YY(q[0], q[1]) ** e, lambda e: cirq.PhasedXPowGate(phase_exponent=e, exponent=0.5).on(q[0]),
+                lambda e: cirq.ZPowGate(exponent=e, global_shift=0.25).on(q[0]), lambda e: cirq.FSimGate(e, 0.25).on(q[0], q[1])]
+        return [rng.choice(pool)(e) for e in es]
+
+    def assignment(symbols):
+        return {s: rng.choice([0.25, -0.5, 1.0, 0.37, 2.0, -1.25, 0.1]) for s in symbols}
+
+    def unitary_at(circ, params):
+        return cirq.unitary(cirq.resolve_parameters(circ, cirq.ParamResolver(params)))
+
+    def check(label, circ, flat, emap, assigns, detail):
+        nonlocal cases
+        for params in assigns:
+            cases += 1
+            try:
+                want = unitary_at(circ, params)
+                got = unitary_at(flat, emap.transform_params(params))
+            except Exception as ex:
+                fails.append(dict(args=dict(circuit=repr(circ), params=repr(params), **detail), failed=label + "-raised", clause=f"{ex!r}"))
+                return
+            if not np.allclose(got, want, atol=1e-8):
+                fails.append(dict(args=dict(circuit=repr(circ), flattened=repr(flat), expression_map=repr(dict(emap)), params=repr(params), **detail), failed=label,
+                                  clause="the flattened circuit resolved with the transformed parameters differs from the original circuit resolved with the parameters"))
+                return
+
+    for it in range(40 if tier == "quick" else 400):
+        es = [rng.choice(exprs) for _ in range(rng.randrange(1, 4))]
+        mode = rng.choice(["plain", "odd-symbols", "odd-symbols", "reflatten", "seeded-map", "sweep"])
+        if mode == "odd-symbols":
+            bare = [rng.choice(odd_names(es)) for _ in range(rng.randrange(1, 3))]
+            order = es + bare
+            if rng.random() < 0.5:
+                rng.shuffle(order)
+            circ = cirq.Circuit(gate_ops(order))
+        else:
+            circ = cirq.Circuit(gate_ops(es))
+        syms = sorted(cirq.parameter_symbols(circ), key=str)
+        assigns = [assignment(syms) for _ in range(3)]
+        if mode in ("plain", "odd-symbols"):
+            flat, emap = cirq.flatten(circ)
+            check("flatten", circ, flat, emap, assigns, dict(mode=mode))
+            fl2, rs = cirq.flatten_with_params(circ, assigns[0])
+            cases += 1
+            if not np.allclose(cirq.unitary(cirq.resolve_parameters(fl2, rs)), unitary_at(circ, assigns[0]), atol=1e-8):
+                fails.append(dict(args=dict(circuit=repr(circ), params=repr(assigns[0]), mode=mode), failed="flatten_with_params", clause="flatten_with_params changes the value of the circuit"))
+        elif mode == "reflatten":
+            # an already flat circuit gets new expression gates IN FRONT and is flattened again
+            flat1, emap1 = cirq.flatten(circ)
+            more = [rng.choice(exprs) for _ in range(rng.randrange(1, 3))]
+            circ2 = cirq.Circuit(gate_ops(more)) + flat1
+            syms2 = sorted(cirq.parameter_symbols(circ2), key=str)
+            flat2, emap2 = cirq.flatten(circ2)
+            check("re-flatten", circ2, flat2, emap2, [assignment(syms2) for _ in range(3)], dict(mode=mode, first_stage=repr(circ)))
+        elif mode == "seeded-map":
+            # a flattener that starts from a user map: one expression is pre-assigned to a symbol that another gate uses bare
+            pre = sympy.Symbol(rng.choice(["x", "<x + 1>", "w", "<2*y>"]))
+            if not isinstance(es[0], sympy.Symbol):
+                es[0] = x  # a user map may only be keyed by symbols
+            flattener = fe._ParamFlattener({es[0]: pre})
+            bare = rng.choice([pre, sympy.Symbol("<x + 1>"), x])
+            circ = cirq.Circuit(gate_ops(es + [bare]))
+            syms = sorted(cirq.parameter_symbols(circ), key=str)
+            flat = flattener.flatten(circ)
+            emap = fe.ExpressionMap(flattener.param_dict)
+            check("flatten-with-initial-map", circ, flat, emap, [assignment(syms) for _ in range(3)], dict(mode=mode, initial_map=repr({es[0]: pre})))
+        else:
+            sweep = cirq.Zip(*[cirq.Points(str(s), [rng.choice([0.25, -0.5, 1.0, 0.37]) for _ in range(3)]) for s in syms]) if syms else cirq.UnitSweep
+            flat, fsweep = cirq.flatten_with_sweep(circ, sweep)
+            for pr, fpr in zip(cirq.to_resolvers(sweep), cirq.to_resolvers(fsweep)):
+                cases += 1
+                if not np.allclose(cirq.unitary(cirq.resolve_parameters(flat, fpr)), cirq.unitary(cirq.resolve_parameters(circ, pr)), atol=1e-8):
+                    fails.append(dict(args=dict(circuit=repr(circ), sweep=repr(sweep), point=repr(pr)), failed="flatten_with_sweep",
+                                      clause="a point of the flattened sweep gives the flattened circuit a different value than the original point gives the original circuit"))
+                    break
+            if len(list(cirq.to_resolvers(fsweep))) != len(list(cirq.to_resolvers(sweep))):
+                fails.append(dict(args=dict(circuit=repr(circ), sweep=repr(sweep)), failed="flatten_with_sweep-length", clause="the transformed sweep has a different number of points"))
+        if len(fails) >= 4:
+            break
+    return dict(function="cirq-core/cirq/study/flatten_expressions.py[flatten, flatten_with_sweep, flatten_with_params, ExpressionMap]", case="flatten",
+                bound="seeded 2-qubit circuits of 1-5 parameterized gates (8 families, 12 expression shapes), bare symbols named like generated names, re-flattening, user-seeded maps, zipped sweeps; 3 assignments each",
+                cases=cases, distinct=cases, failures=len(fails), exhaustive=False, _fails=fails[:4])
+standin_flatten.prop = "C10"
+
+
+STANDINS = [standin_sweeps, standin_resolution, standin_resolve_after_edits, standin_flatten]
 
 
 def _replay_own(ob, seed):
@@ -253,7 +360,7 @@ def _replay_own(ob, seed):
 REPLAYERS = {"cirq-core/cirq/sim/simulation_state.py:SimulationState.copy[ownership]": _replay_own}
 NOT_COVERED = [
     "sweep classes: __len__/param_tuples generators, slicing, Linspace values: bounded stand-in only",
-    "ParamResolver.value_of fast paths, flatten / flatten_with_sweep, serialization of symbols, transformers on parameterized circuits: not covered or bounded",
+    "ParamResolver.value_of fast paths, serialization of symbols, transformers on parameterized circuits: not covered or bounded",
 ]
 ASSUMPTIONS = ["abstract sweep: len() and the items of iteration are uninterpreted; itertools.islice / next are modelled (assume_contract)",
                "ownflow: fields other than _classical_data/_state are shared after SimulationState.copy()"]
